@@ -13,6 +13,7 @@ type T struct {
 	C Cov   // nullable
 	D Cov   // nullable
 	F Cov   // nullable, replaced by fillLook
+	R Cov   // nullable, a nil one is refused by checkT
 	U Cov   // always set
 	E []Cov // elements nullable
 }
@@ -36,6 +37,9 @@ func parseT(src []byte) (T, error) {
 	}
 	if off := int(src[2]); off != 0 {
 		t.F = cov1{}
+	}
+	if off := int(src[5]); off != 0 {
+		t.R = cov1{}
 	}
 	t.E = make([]Cov, 2)
 	for i := range t.E {
@@ -134,3 +138,18 @@ func closureBad(t T) func(int) int {
 	c := t.C
 	return func(g int) int { return c.Index(g) }
 }
+
+type nilErr struct{}
+
+func (nilErr) Error() string { return "nil" }
+
+func checkT(t T) error {
+	if t.R == nil {
+		return nilErr{}
+	}
+	return nil
+}
+
+func loadT(t T) error { return checkT(t) }
+
+func useRejected(t T) int { return t.R.Index(1) }
